@@ -83,7 +83,17 @@ type S4 struct {
 	Y   int
 }
 
-// S5: hidden and unexported fields of every shape, for the non-interference property (C08).
+// S5/S5b: hidden and unexported fields of every shape, for the non-interference property (C08).
+// (The model's type universe has no recursive types, so the nesting is spelled out.)
+type S5b struct {
+	V    int
+	Name string
+	Sec  string `bexpr:"-"`
+	SecL []int  `bexpr:"-" alt:"secl"`
+	priv string
+	Ren  string `bexpr:"renamed" alt:"-"`
+}
+
 type S5 struct {
 	V    int
 	Name string
@@ -92,10 +102,12 @@ type S5 struct {
 	SecL []int             `bexpr:"-" alt:"secl"`
 	priv string
 	pm   map[string]int
-	In   *S5
-	Kids []S5
-	ByK  map[string]S5
+	In   *S5b
+	Kids []S5b
+	ByK  map[string]S5b
 	Ren  string `bexpr:"renamed" alt:"-"`
+	SecS S5b    `bexpr:"-"`
+	ps   S5b
 }
 
 // Wrap is what the "unwrap" value-transformation hook replaces by its field (C18).
